@@ -99,7 +99,7 @@ BOUNDS = {
              '1.33M valid-message space and the reject region); sysex payload length 0..8 with every item '
              'symbolic in [-2^40, 2^40]; hex()/from_hex for every type (sysex L<=4) x 8 separator choices; '
              'time is an opaque token (any int/float object)',
-    'thorough': 'as quick, sysex payload lengths 0..48 (symbolic contents), hex sysex L<=12',
+    'thorough': 'as quick, sysex payload lengths 0..64 and 127,128,129,255,256,512 (every item symbolic over +-2^40), hex sysex L<=32',
 }
 OUTSIDE = 'sysex payloads longer than the stated length; float-valued attributes (C03); two-digit hex ' \
           'formatting/parsing of one byte is a trusted inverse pair'
@@ -115,11 +115,11 @@ def JOBS(tier):
     jobs = []
     for t in NONSYSEX:
         jobs.append((codec_rt, {'type': t}, {}))
-    maxl = 8 if tier == 'quick' else 48
-    for L in range(0, maxl + 1):
+    lens = list(range(0, 9)) if tier == 'quick' else list(range(0, 65)) + [127, 128, 129, 255, 256, 512]
+    for L in lens:
         jobs.append((codec_rt_sysex, {'L': L}, {'cost': L}))
     for t in NONSYSEX:
         jobs.append((hex_rt, {'type': t}, {}))
-    for L in range(0, (4 if tier == 'quick' else 12) + 1):
-        jobs.append((hex_rt, {'type': 'sysex', 'L': L}, {}))
+    for L in range(0, (4 if tier == 'quick' else 32) + 1):
+        jobs.append((hex_rt, {'type': 'sysex', 'L': L}, {'cost': L}))
     return jobs
